@@ -115,7 +115,9 @@ Proof.
     apply update_counters_cinv. now apply cinv_with_pq.
   - unfold pos_find. destruct (pq_find H (pq_ s) (Z.eqb o) rm) as [[e q]|]; auto;
     simpl; now apply cinv_with_pq.
-  - unfold pos_reschedule. destruct (pq_reschedule H (pq_ s) (Z.eqb o) _) as [[o' q]|]; auto;
+  - unfold pos_reschedule. destruct (pq_find _ _ _ _) as [[e q0]|]; auto.
+    destruct (_ =? _); auto. unfold pos_reschedule_reg.
+    destruct (pq_reschedule H (pq_ s) (Z.eqb o) _) as [[o' q]|]; auto;
     simpl; now apply cinv_with_pq.
   - unfold pos_reschedule_all. now apply cinv_with_pq.
   - unfold pos_clear. now apply cinv_with_pq.
@@ -700,6 +702,108 @@ Proof.
 Qed.
 
 End Prompt2.
+
+(* ------------------------------------------------------------------------- *)
+(* The other order of a round: append_pri first, then popleft (L >= 1)         *)
+(* ------------------------------------------------------------------------- *)
+Section PromptAP.
+Context (H : heapimpl pv) (HL : heap_len H).
+
+Definition pair_ap (s : pos) (x : Z * Q) : pos :=
+  let s1 := pos_append_pri H s (fst x) (snd x) in
+  match pos_popleft H s1 with Some (_, s2) => s2 | None => s1 end.
+Definition pairs_ap (s : pos) (l : list (Z * Q)) : pos := fold_left pair_ap l s.
+
+Lemma pair_ap_facts s x :
+  1 <= plen s -> cinv s ->
+  let s' := pair_ap s x in
+  plen s' = plen s /\ n_ins s' = n_ins s + 1 /\ n_rem s' = n_rem s + 1 /\ cinv s' /\
+  (due (pre_maint H s (fst x) (snd x)) = true \/
+   (last_maint s' = last_maint s /\
+    Z.min (n_ins s) (n_rem s) <= Z.max 10 (plen s + 1) + last_maint s)).
+Proof.
+  intros HLn Hc.
+  destruct (append_facts H HL s (fst x) (snd x)) as (A1 & A2 & A3 & A4).
+  assert (Hc1 : cinv (pos_append_pri H s (fst x) (snd x))).
+  { unfold pos_append_pri. apply update_counters_cinv. now apply cinv_with_pq. }
+  destruct (popleft_facts H HL (pos_append_pri H s (fst x) (snd x)))
+    as (o & s2 & P & L1 & I1 & R1 & M1 & _); [lia|].
+  unfold pair_ap. rewrite P.
+  assert (Hc2 : cinv s2) by (eapply popleft_cinv; eauto).
+  repeat split; try lia; try apply Hc2.
+  destruct (due (pre_maint H s (fst x) (snd x))) eqn:D; [now left|right].
+  destruct A4 as [A4|A4]; [|congruence]. split; [lia|].
+  unfold due in D. apply Z.ltb_ge in D.
+  destruct (pre_maint_facts H HL s (fst x) (snd x)) as (Q1 & Q2 & Q3 & Q4).
+  rewrite Q1, Q2, Q3, Q4 in D. lia.
+Qed.
+
+Lemma pairs_ap_facts l : forall s,
+  1 <= plen s -> cinv s ->
+  plen (pairs_ap s l) = plen s /\ n_ins (pairs_ap s l) = n_ins s + Z.of_nat (length l) /\
+  cinv (pairs_ap s l).
+Proof.
+  induction l as [|x l IH]; intros s HLn Hc.
+  - simpl. repeat split; try lia; apply Hc.
+  - destruct (pair_ap_facts s x HLn Hc) as (P1 & P2 & P3 & P4 & _).
+    change (pairs_ap s (x :: l)) with (pairs_ap (pair_ap s x) l).
+    destruct (IH (pair_ap s x)) as (Q1 & Q2 & Q4); [lia|auto|].
+    rewrite Q1, Q2, P1, P2. simpl length. repeat split; try lia; apply Q4.
+Qed.
+
+Lemma prompt_ap_aux load : forall s,
+  1 <= plen s -> cinv s -> load <> [] ->
+  Z.max 10 (plen s + 1) + 2 <=
+    Z.of_nat (length load) + (Z.min (n_ins s) (n_rem s) - last_maint s) ->
+  exists l1 x l2, load = l1 ++ x :: l2 /\
+    Z.of_nat (length l1) <=
+      Z.max 0 (Z.max 10 (plen s + 1) + 1 - (Z.min (n_ins s) (n_rem s) - last_maint s)) /\
+    due (pre_maint H (pairs_ap s l1) (fst x) (snd x)) = true.
+Proof.
+  induction load as [|x load IH]; intros s HLn Hc Hne Hlen; [congruence|].
+  destruct (pair_ap_facts s x HLn Hc) as (P1 & P2 & P3 & P4 & [M|[M1 M2]]).
+  - exists [], x, load. simpl. split; [reflexivity|]. split; [lia|exact M].
+  - assert (Hne' : load <> []).
+    { intros ->. simpl length in Hlen. lia. }
+    destruct (IH (pair_ap s x)) as (l1 & y & l2 & E & B & M); try lia; auto.
+    { rewrite P1, P2, P3, M1. simpl length in Hlen. lia. }
+    exists (x :: l1), y, l2. rewrite E. split; [reflexivity|]. split.
+    + rewrite P1, P2, P3, M1 in B. simpl length. lia.
+    + exact M.
+Qed.
+
+(* with L >= 1 entries queued and rounds append_pri;popleft, maintenance runs in
+   one of the first max(10,L+1)+2 rounds; in a round after more than L rounds
+   every entry queued since the start passes the straggler test *)
+Theorem prompt_ap s load :
+  cinv s -> 1 <= plen s ->
+  Z.max 10 (plen s + 1) + 2 <= Z.of_nat (length load) ->
+  exists l1 x l2, load = l1 ++ x :: l2 /\
+    Z.of_nat (length l1) <= Z.max 10 (plen s + 1) + 1 /\
+    due (pre_maint H (pairs_ap s l1) (fst x) (snd x)) = true.
+Proof.
+  intros Hc HLn Hlen.
+  destruct (prompt_ap_aux load s HLn Hc) as (l1 & x & l2 & E & B & M).
+  - intros ->. simpl length in Hlen. lia.
+  - destruct Hc. lia.
+  - exists l1, x, l2. repeat split; auto. destruct Hc. lia.
+Qed.
+
+Theorem prompt_ap_straggler s l1 x :
+  cinv s -> 1 <= plen s -> plen s < Z.of_nat (length l1) ->
+  let sm := pre_maint H (pairs_ap s l1) (fst x) (snd x) in
+  plen sm = plen s + 1 /\
+  forall e, In e (arr (pq_ sm)) -> ins_at (epri e) <= n_ins s ->
+            (ins_at (epri e) <? n_ins sm - plen sm) = true.
+Proof.
+  intros Hc HLn Hl sm.
+  destruct (pairs_ap_facts l1 s HLn Hc) as (Q1 & Q2 & Q4).
+  destruct (pre_maint_facts H HL (pairs_ap s l1) (fst x) (snd x)) as (F1 & F2 & F3 & F4).
+  fold sm in F1, F2, F3, F4.
+  split; [lia|]. intros e _ Hi. apply Z.ltb_lt. lia.
+Qed.
+
+End PromptAP.
 
 (* ------------------------------------------------------------------------- *)
 (* A considered entry is boosted (draws in (0,1), factor > 0)                 *)
